@@ -32,6 +32,21 @@ func HarnessTaskFailureKinds() {
 	}
 	bystander, brole := ftTask("bystander", env, true)
 	w := ftManager(Tasks{victim, bystander}, nil)
+	execId, agentId := victim.executorId, victim.agentId
+	if vrt.Bool("running.update.first") {
+		// an earlier TASK_RUNNING update for the victim, as sent by the executor (both ids) or by the master in
+		// answer to a reconciliation (agent id only, or none): it must not change what a later failure means
+		run := mesos.TASK_RUNNING
+		st := mesos.TaskStatus{TaskID: mesos.TaskID{Value: victim.taskId}, State: &run}
+		if vrt.Bool("running.update.has.agent") {
+			st.AgentID = &mesos.AgentID{Value: agentId}
+		}
+		if vrt.Bool("running.update.has.executor") {
+			st.ExecutorID = &mesos.ExecutorID{Value: execId}
+		}
+		w.m.handleMessage(NewTaskStatusMessage(st))
+		vrt.WaitQuiescent(50 * time.Millisecond)
+	}
 	switch vrt.IntRange("kind", 0, 2) {
 	case 0:
 		states := []mesos.TaskState{mesos.TASK_FAILED, mesos.TASK_LOST, mesos.TASK_KILLED, mesos.TASK_ERROR, mesos.TASK_FINISHED, mesos.TASK_RUNNING, mesos.TASK_STARTING}
@@ -53,7 +68,7 @@ func HarnessTaskFailureKinds() {
 		}
 		vrt.Reach("status")
 	case 1:
-		affected := w.m.HandleExecutorFailed(&event.ExecutorFailedEvent{ExecutorId: mesos.ExecutorID{Value: victim.executorId}})
+		affected := w.m.HandleExecutorFailed(&event.ExecutorFailedEvent{ExecutorId: mesos.ExecutorID{Value: execId}})
 		vrt.WaitQuiescent(50 * time.Millisecond)
 		vrt.Assert(victim.state == sm.ERROR && victim.status == INACTIVE, "executor-loss-puts-its-tasks-in-error-and-inactive")
 		if owned {
@@ -63,7 +78,7 @@ func HarnessTaskFailureKinds() {
 		}
 		vrt.Reach("executor")
 	case 2:
-		w.m.HandleAgentFailed(&event.AgentFailedEvent{AgentId: mesos.AgentID{Value: victim.agentId}})
+		w.m.HandleAgentFailed(&event.AgentFailedEvent{AgentId: mesos.AgentID{Value: agentId}})
 		vrt.WaitQuiescent(50 * time.Millisecond)
 		vrt.Assert(victim.state == sm.ERROR && victim.status == INACTIVE, "agent-loss-puts-its-tasks-in-error-and-inactive")
 		vrt.Reach("agent")
